@@ -1,6 +1,8 @@
 package main
 
 import (
+	"golang.org/x/tools/go/ssa"
+
 	"encoding/json"
 	"flag"
 	"fmt"
@@ -177,6 +179,15 @@ func (r *CheckRun) propFuncs() ([]string, error) {
 		keys = append(keys, k)
 	}
 	sort.Strings(keys)
+	for _, l := range r.P.Spec.Lemmas {
+		for _, lb := range l.Labels {
+			if lb == r.Prop || strings.HasPrefix(lb, r.Prop+".") {
+				if len(keys) == 0 || keys[len(keys)-1] != "lemmas" {
+					keys = append(keys, "lemmas")
+				}
+			}
+		}
+	}
 	return keys, nil
 }
 
@@ -226,6 +237,22 @@ func (r *CheckRun) Run() (code int) {
 			sem <- struct{}{}
 			defer func() { <-sem }()
 			t0u := time.Now()
+			if k == "lemmas" {
+				vc := &VC{P: P, key: "lemmas", pre: NewPrelude(), vals: map[ssa.Value]string{}, prop: r.Prop, uncontracted: map[string]bool{}, assumedUsed: map[string]bool{}, defaultExt: map[string]bool{}, inlined: map[string]bool{}, groundUsed: map[string]bool{}, workDir: r.Work}
+				var ls []*Clause
+				for _, l := range P.Spec.Lemmas {
+					if l.HasProp(r.Prop) && len(l.Labels) > 0 {
+						ls = append(ls, l)
+					}
+				}
+				err := vc.GenerateLemmas(ls)
+				if err == nil {
+					vc.finish()
+					err = vc.Discharge(vc.obls, r.Work, quickMs, slowMs)
+				}
+				results[i] = fres{vc: vc, obls: vc.obls, err: err}
+				return
+			}
 			vc := NewVCFor(P, P.Spec.Contracts[k], r.Prop)
 			vc.workDir = r.Work
 			if c := vc.contract; c != nil {
